@@ -76,7 +76,9 @@ func runERRPAIR(c *Ctx) {
 					for _, pt := range edges[st] {
 						atEdges = atEdges && (errKnownNil(pt, errV) || errNilOnEdge(pt, errV))
 					}
-					if errV != nil && (atEdges || errKnownNil(st, errV)) {
+					if errV != nil && recordedWithError(st, errV) {
+						c.OK(pos, what, "recorded side by side with its error in the same scratch object (whoever reads the value reads the error first)", false)
+					} else if errV != nil && (atEdges || errKnownNil(st, errV)) {
 						c.OK(pos, what, "stored only where the call's error is known to be nil", false)
 					} else if base, _, _, isNode := nodeBaseOfAddr(st.Addr); isNode && c.Facts.Own().Classify(base, st).Own == Fresh {
 						c.OK(pos, what, "written into a node allocated by this very call (a private copy nobody else sees; it is dropped with the error)", false)
@@ -274,6 +276,31 @@ func errNilOnEdge(pt ssa.Instruction, errV ssa.Value) bool {
 			return true
 		}
 		break
+	}
+	return false
+}
+
+// recordedWithError: `p.cmp, p.err = f()` — the value goes into a field of a private (non-tree) struct and the error
+// into another field of the very same object in the same block: a recorded pair, not tree state overwritten.
+func recordedWithError(st *ssa.Store, errV ssa.Value) bool {
+	fa, ok := st.Addr.(*ssa.FieldAddr)
+	if !ok {
+		return false
+	}
+	t := fa.X.Type()
+	if pt, isP := t.Underlying().(*types.Pointer); isP {
+		t = pt.Elem()
+	}
+	nt, isN := types.Unalias(t).(*types.Named)
+	if !isN || nt.Obj().Name() == "Mast" || nt.Obj().Name() == "mastNode" || nt.Obj().Name() == "Node" || nt.Obj().Name() == "Cursor" || nt.Obj().Name() == "DiffCursor" {
+		return false
+	}
+	for _, ins := range st.Block().Instrs {
+		if o, ok := ins.(*ssa.Store); ok && o.Val == errV {
+			if fb, ok := o.Addr.(*ssa.FieldAddr); ok && fb.X == fa.X && fb.Field != fa.Field {
+				return true
+			}
+		}
 	}
 	return false
 }
